@@ -65,8 +65,10 @@ def check(run):
             elif r < 0.8:
                 seq.append("lock meta_set " + bytes(rng.getrandbits(8) for _ in range(rng.choice([1, 5, 64]))).hex())
                 seq.append("lock meta_get")
-            elif r < 0.84:
+            elif r < 0.82:
                 seq.append("lock flush")
+            elif r < 0.84:
+                seq.append("lock set_tree 20")
             elif r < 0.9:
                 seq.append(f"lock set_leaf_raw {hex(rng.choice([0, 3, 1 << 20]))} {bytes(rng.getrandbits(8) for _ in range(rng.choice([32, 33, 64]))).hex()}")
             else:
